@@ -13,7 +13,8 @@
   socket's pending survey is idle" when a survey is taken and when a response goes out (R3).
 -/
 import NngModel.Proto.Base
-import NngModel.Generated.Consts
+import NngModel.Generated.Base
+import NngModel.Generated.C07
 namespace Nng.Respond
 open Nng Nng.Proto
 
